@@ -131,6 +131,27 @@ func rtFill(s caching.Storage, i int, size int64) (bool, error) {
 	return true, nil
 }
 
+// rtReval: a revalidation that stores a new body of another size over entry i (the writer works on a .tmp file and
+// renames it over the entry; the limiter is not told: the region of known finding F14-drift)
+func rtReval(s caching.Storage, root string, i int, size int64) (bool, error) {
+	if _, err := os.Stat(filepath.Join(root, rtKeyOf(i).FsName())); err != nil {
+		return false, nil // nothing to revalidate
+	}
+	w := s.GetWriter(rtKeyOf(i), true, nil)
+	if w == nil {
+		return false, nil
+	}
+	h := http.Header{"Content-Length": []string{strconv.FormatInt(size, 10)}, "Cache-Control": []string{"max-age=86400"}}
+	w.WriteHeader(200, h)
+	if _, err := w.Write(make([]byte, size)); err != nil {
+		return false, err
+	}
+	if err := w.Close(); err != nil {
+		return false, err
+	}
+	return true, nil
+}
+
 func rtHit(s caching.Storage, i int) bool {
 	f, _, _, err := s.Get(context.Background(), []caching.Key{rtKeyOf(i)})
 	if err != nil || f == nil {
@@ -278,6 +299,17 @@ func (c *limRtCase) Run() (sx.V, error) {
 			} else {
 				observe(LimOp{}, "") // nothing was done, but a pass of the limiter during the wait is recorded where it happened
 			}
+		case "reval":
+			ok, err := rtReval(s, dir, st.I, st.Size)
+			if err != nil {
+				return sx.L(), err
+			}
+			time.Sleep(1100 * time.Millisecond)
+			if ok {
+				observe(LimOp{Kind: "replace", Name: rtKeyOf(st.I).FsName(), Size: st.Size}, "")
+			} else {
+				observe(LimOp{}, "")
+			}
 		case "hit":
 			ok := rtHit(s, st.I)
 			t := time.Now().Unix()
@@ -328,6 +360,12 @@ func genLimRT(tier string, rng *Rng) []Case {
 	// the real loop must still keep them exactly as the model says - fills, hits on them, a pass, a small fill, a pass
 	out = append(out, &limRtCase{plan: RtPlan{Max: 20992, Pre: -1, Steps: []RtStep{{"fill", 0, 5125}, {"fill", 1, 5125}, {"fill", 2, 5125}, {"fill", 3, 5125}, {"fill", 4, 5125},
 		{"hit", 0, 0}, {"hit", 1, 0}, {"hit", 2, 0}, {"hit", 3, 0}, {"hit", 4, 0}, {"quiet", 0, 0}, {"fill", 5, 400}, {"hit", 5, 0}, {"quiet", 0, 0}, {"fill", 6, 1025}, {"hit", 6, 0}, {"quiet", 0, 0}}}})
+	// a revalidation stores a smaller (a larger) body over an entry, the entry is hit, the limiter passes: the books are not
+	// corrected (known finding F14-drift) - but they must drift exactly as the model says, no further
+	out = append(out, &limRtCase{plan: RtPlan{Max: 65536, Pre: -1, Steps: []RtStep{{"fill", 0, 8192}, {"fill", 1, 8192}, {"fill", 2, 8192}, {"reval", 0, 4096}, {"hit", 0, 0},
+		{"quiet", 0, 0}, {"fill", 3, 8192}, {"hit", 1, 0}, {"quiet", 0, 0}}}})
+	out = append(out, &limRtCase{plan: RtPlan{Max: 32768, Pre: -1, Steps: []RtStep{{"fill", 0, 8192}, {"fill", 1, 8192}, {"reval", 1, 16384}, {"hit", 1, 0}, {"quiet", 0, 0},
+		{"fill", 2, 8192}, {"quiet", 0, 0}}}})
 	for i := 0; i < n; i++ {
 		p := RtPlan{Max: int64(rng.Pick2([]int{16384, 65536})), Pre: -1}
 		odd := i%5 == 4
